@@ -117,6 +117,9 @@ ViewsConsistent ==
   /\ cquat # NULL => RotAgree(cquat, truth)
   /\ cse3 # NULL => PosOf(cse3) = PosView(truth) /\ RotAgree(QuatOf(cse3), truth)
   /\ (cse3 # NULL \/ (cpos # NULL /\ cquat # NULL))
+EmitAny == Len(h) >= 1 =>          \* simulation runs: print the history at every state (the harness keeps the longest prefix of each behaviour)
+   PrintT(ToJson([built |-> built, kind |-> IF truth.stamps # <<>> THEN "traj" ELSE "path", h |-> h,
+                  caches |-> <<cse3 # NULL, cpos # NULL, cquat # NULL>>]))
 EmitHist == (Emit /\ Len(h) = MaxDepth) =>
    PrintT(ToJson([built |-> built, stamps |-> truth.stamps # <<>> \/ \E k \in DOMAIN h : FALSE,
                   kind |-> IF HasStamps(EstInit("traj")) /\ truth.stamps # <<>> THEN "traj" ELSE "path",
